@@ -176,6 +176,8 @@ func c14EvalVia(v []int) (string, string, bool) {
 	d1, e1 := ParseVia(text)
 	d2, e2 := ParseVia(text)
 	if e1 == nil && e2 == nil {
+		// the very first decode of this text is consumed as well
+		via.PopViaParam()
 		if t0, err := d1.GetParam(0); err == nil {
 			t0.SetParam("rport", "4444")
 			t0.SetReceived("192.0.2.77")
@@ -297,11 +299,13 @@ func c14EvalRoute(kind string) func(v []int) (string, string, bool) {
 			return "harness-reader", fmt.Sprintf("independent reader cannot decode %q: %v", text, err), false
 		}
 		var enc, enc2 string
+		var firstDecode *Route
 		if kind == "route" {
 			r, err := ParseRoute(text)
 			if err != nil {
 				return kind + "-decode-error", fmt.Sprintf("%q: %v", text, err), true
 			}
+			firstDecode = r
 			enc = r.String()
 			if r2, err := ParseRoute(enc); err == nil {
 				enc2 = r2.String()
@@ -328,6 +332,9 @@ func c14EvalRoute(kind string) func(v []int) (string, string, bool) {
 			r1, e1 := ParseRoute(text)
 			r2, e2 := ParseRoute(text)
 			if e1 == nil && e2 == nil {
+				// consume from the very first decode of this text as well as from a later one
+				firstDecode.PopRouteParam()
+				firstDecode.PopRouteParam()
 				r1.PopRouteParam()
 				r1.PopRouteParam()
 				r3, e3 := ParseRoute(text)
